@@ -280,6 +280,7 @@ class Unit:
             with open(ip) as fh:
                 self.inv = json.load(fh).get('units', {}).get(self.name)
         self.lost_rw = {}     # qname -> [rewrite text] : in-body rewrites that no longer match
+        self.item_extra_done = set()
         self.inventory_out = dict(files={}, rewrites={})
 
     def load_spec(self, unit_path):
@@ -340,6 +341,22 @@ class Unit:
         return spec
 
     # -- helpers ---------------------------------------------------------------------------
+    def other_files_text(self, path):
+        """Text of the other source files of this unit (a new helper may be used from a sibling module: `use super::helper`)."""
+        if not hasattr(self, '_oft'):
+            self._oft = {}
+        if path not in self._oft:
+            parts = []
+            for f in self.spec.get('file', []):
+                if f['path'] != path:
+                    try:
+                        with open(os.path.join(REPO, f['path'])) as fh:
+                            parts.append(re.sub(r'(?s)#\[cfg\(test\)\]\s*mod \w+ \{.*', '', fh.read()))
+                    except OSError:
+                        pass
+            self._oft[path] = '\n'.join(parts)
+        return self._oft[path]
+
     def rule(self, rule, path, line, detail):
         self.report['rules'].append(dict(rule=rule, file=path, line=line, detail=detail))
 
@@ -473,14 +490,18 @@ class Unit:
                     ed.add(k, k, 'self::', 'D3')
                     self.rule('D3', path, line_of(text, k), '`pub use %s::` -> `pub use self::%s::`' % (m.group(3), m.group(3)))
             ok = True
+            # keep / drop patterns were written against the item as it was declared then; tightening or widening its visibility does
+            # not make it another item: a pattern is also tried against the key with `pub` / `pub(crate)` removed or added
+            bare = re.sub(r'^pub(\([a-z]+\))? ', '', key)
+            variants = [key, bare, 'pub ' + bare, 'pub(crate) ' + bare]
             if keep_re:
                 ok = False
                 for i, r in enumerate(keep_re):
-                    if r.search(key):
+                    if any(r.search(v) for v in variants):
                         ok = True
                         matched_keep.add(i)
             for i, r in enumerate(drop_re):
-                if r.search(key):
+                if any(r.search(v) for v in variants):
                     ok = False
                     matched_drop.add(i)
             if not ok:
@@ -515,7 +536,8 @@ class Unit:
                         if it in chosen:
                             continue
                         nm = item_name(it['key'])
-                        if any(re.search(r'\b%s\b' % re.escape(nm), text[k['hdr_a']:k['b']]) for k in base + chosen):
+                        if any(re.search(r'\b%s\b' % re.escape(nm), text[k['hdr_a']:k['b']]) for k in base + chosen) \
+                                or re.search(r'\b%s\b' % re.escape(nm), self.other_files_text(path)):
                             chosen.append(it)
                             changed = True
                 for it in new_named:
@@ -737,6 +759,9 @@ class Unit:
             if it['body_open'] is not None and re.match(r'^(pub(\([a-z]+\))? )?(unsafe )?(impl|trait)\b', key):
                 for ix, ie in enumerate(self.spec.get('item_extra', [])):
                     if ie['file'] == path and re.search(ie['item'], key):
+                        if (path, ix) in self.item_extra_done:
+                            continue   # ghost items go into ONE block: a second impl block of the same type (added later) gets none
+                        self.item_extra_done.add((path, ix))
                         ed.edits.append((it['body_open'] + 1, it['body_open'] + 1, '\n' + ie['text'].rstrip() + '\n',
                                          'item_extra:%s:%s' % (path, ie['item'])))
                         self.used_item_extra.add(ix)
@@ -818,6 +843,12 @@ class Unit:
             ik, fnn = d.rsplit('::', 1)
             if re.search(ik, item_key):
                 allowed = [x.rsplit('::', 1)[1] for x in f.get('fn_keep', []) if re.search(x.rsplit('::', 1)[0], item_key)]
+                inv_file = (self.inv or {}).get('files', {}).get(path)
+                if name not in allowed and inv_file is not None and qname not in set(inv_file['fns']) and \
+                        re.search(r'(?<![A-Za-z0-9_])%s\s*\(' % re.escape(name), text[:sub['a']] + text[sub['b']:]):
+                    # K1 for methods: a method that did not exist when the list was written and that other code of the file calls
+                    self.rule('K1', path, line_of(text, sub['hdr_a']), 'new method `%s` extracted: code of the file calls it' % qual)
+                    break
                 if name not in allowed:
                     ed.drop_range(sub['a'], sub['b'], 'D1')
                     self.rule('D1', path, line_of(text, sub['hdr_a']), 'dropped fn %s (not in fn_keep)' % qual)
